@@ -318,7 +318,6 @@ Proof.
   - apply kraft_fits; try lia.
     + unfold zlen. rewrite H1. lia.
     + eapply Forall_impl; [|exact Hb]. cbn. intros; lia.
-    + change (2 ^ (17 - 1)) with 65536. change (2 ^ 17) with 131072. lia.
 Qed.
 
 (* ---------- huff_prefix_decode ---------- *)
